@@ -67,9 +67,9 @@ class G:
         r = self.rng
         kinds = ["simple", "simple", "assign", "cmt_after", "if", "while", "for", "case", "brace", "subshell",
                  "andor", "pipe", "cont", "squote", "dquote", "heredoc", "heredoc_q", "heredoc_dash", "heredoc2",
-                 "heredoc_pipe", "cmdsub", "arith", "dbracket", "func"]
+                 "heredoc_pipe", "cmdsub", "arith", "dbracket", "func", "eval", "eval2"]
         if depth >= 2:
-            kinds = ["simple", "assign", "cont", "squote", "heredoc", "andor"]
+            kinds = ["simple", "assign", "cont", "squote", "heredoc", "andor", "eval"]
         k = r.choice(kinds)
         self.kinds.append(k)
         i = self.pid()
@@ -119,6 +119,10 @@ class G:
             return ["echo r%d:$((1 +" % i, "  2))"]
         if k == "dbracket":
             return ["if [[ a == a &&", "  b == b ]]; then " + self.probe("y") + "; fi"]
+        if k == "eval":
+            return ["eval 'echo e%d:$LINENO'" % i]
+        if k == "eval2":
+            return ["eval 'echo e%d:$LINENO" % i, "echo e%d:$LINENO'" % self.pid()]
         if k == "func":
             head = r.choice(["f%d() {" % i, "function f%d {" % i])
             return [head] + self.body(depth) + ["}"] if nested else [head] + self.body(depth) + ["}"]
@@ -449,10 +453,13 @@ def check_modes(ctx, progs, workdir, res):
             if m in bash_diffs and ba[m][:2] == br[m][:2]:
                 res["spec_vs_bash"]["mode_difference_shared_with_bash"] = res["spec_vs_bash"].get("mode_difference_shared_with_bash", 0) + 1
                 continue
-            res["spec_violations"].append({"input": {"program": t, "mode": m},
-                                           "why": "delivery as %s gives %r but as a script file %r (bash: %r vs %r)" % (
-                                               m, br[m][:2], ref[:2], ba[m][:2], ba["file"][:2]),
-                                           "stderr": br[m][2][:300]})
+            v = {"input": {"program": t, "mode": m},
+                 "why": "delivery as %s gives %r but as a script file %r (bash: %r vs %r)" % (
+                     m, br[m][:2], ref[:2], ba[m][:2], ba["file"][:2]),
+                 "stderr": br[m][2][:300]}
+            if only_eval_probes_differ(br[m], ref) and not bash_diffs:
+                v["known"] = KF_EVAL
+            res["spec_violations"].append(v)
         res["file_out"][t] = ((br["file"][0], br["file"][1]), (ba["file"][0], ba["file"][1]))
         toks = lineno_tokens(ref[1])
         if toks:
@@ -490,6 +497,14 @@ def check_eval_lines(ctx, progs, workdir, res):
         if cls[0] == "known":
             v["known"] = KF_EVAL
         res["spec_violations"].append(v)
+
+
+def only_eval_probes_differ(a, b):
+    """class of KF-C15-eval-lineno-base for nested `eval`: statuses equal and the outputs equal once
+    the numbers printed by probes inside eval'ed text (tags e<N>) are masked"""
+    import re
+    mask = lambda s: re.sub(r"\be(\d+):\d+", r"e\1:N", s)
+    return a[0] == b[0] and mask(a[1]) == mask(b[1]) and a[1] != b[1]
 
 
 def nums(s):
@@ -532,7 +547,7 @@ def toy_program(rng):
     if rng.random() < 0.5:
         segs.append((["trap 'echo bye:$?' EXIT"], [("trap", "", "", 0)]))
     for _ in range(rng.randrange(1, 8)):
-        k = rng.choice("PPKHIABCSA")
+        k = rng.choice("PPKHIABCSAEJ")
         j = i()
         if k == "P":
             segs.append((["echo p%d:$LINENO" % j], [("print", "p%d" % j, "", 1)]))
@@ -544,6 +559,10 @@ def toy_program(rng):
             segs.append((["if true", "then", "  echo i%d:$LINENO" % j, "fi"], [("print", "i%d" % j, "", 3)]))
         elif k == "A":
             segs.append((["true &&", "  echo a%d:$LINENO" % j], [("print", "a%d" % j, "", 2)]))
+        elif k == "E":
+            segs.append((["eval 'echo e%d:$LINENO'" % j], [("eval", "e%d" % j, "", 1)]))
+        elif k == "J":
+            segs.append((["if true", "then", "  eval 'echo e%d:$LINENO'" % j, "fi"], [("eval", "e%d" % j, "", 3)]))
         elif k == "B":
             segs.append(([""], []))
         elif k == "C":
@@ -597,7 +616,7 @@ def check_toy_modes(ctx, workdir, res, want_classes):
         for seg_lines, cmds in p:
             seg_text = "".join(l + "\n" for l in seg_lines)
             ptab[seg_text] = [(k, a, b, ln) for (k, a, b, ln) in cmds]
-            whole += [(k, a, b, ln + line0 if k == "print" else ln) for (k, a, b, ln) in cmds]
+            whole += [(k, a, b, ln + line0 if k in ("print", "eval") else ln) for (k, a, b, ln) in cmds]
             line0 += len(seg_lines)
         ptab[t] = whole
         pf = [str(len(ptab))]
@@ -605,30 +624,52 @@ def check_toy_modes(ctx, workdir, res, want_classes):
             pf += [x, str(len(cmds))]
             for (k, a, b, ln) in cmds:
                 pf += [k, a, b, str(ln)]
-        for mode in ("file", "c", "source", "eval", "stdin"):
-            cases.append([mode, str(len(ls))] + ls + [str(len(xs))] + ctab + pf)
-            meta.append((t, mode))
+        for rule in ("brush", "bash"):
+            for mode in ("file", "c", "source", "eval", "stdin"):
+                cases.append([rule, mode, str(len(ls))] + ls + [str(len(xs))] + ctab + pf)
+                meta.append((t, mode, rule))
     model = ctx.model("c15modes", cases)
     res["model_cases"]["c15modes"] = cases
     res["model_out"]["c15modes"] = model
+    by = {}
+    for (t, mode, rule), ml in zip(meta, model):
+        by[(t, mode, rule)] = core.dec_line(ml)
 
     def one(i):
-        return run_modes(brush_argv(ctx), texts[i], workdir, "t%d" % i)
+        return run_modes(brush_argv(ctx), texts[i], workdir, "t%d" % i), run_modes(BASH_ARGV, texts[i], workdir, "u%d" % i)
     with ThreadPoolExecutor(8) as ex:
         real = list(ex.map(one, range(len(texts))))
-    real_of = {}
-    for t, r in zip(texts, real):
-        real_of[t] = r
-    for (t, mode), ml in zip(meta, model):
-        res["evaluations"] += 1
-        mf = core.dec_line(ml)
-        r = real_of[t][mode]
-        code = r[1].split("\n")[:-1] + ["|", str(r[0])] if r[1].endswith("\n") or r[1] == "" else r[1].split("\n") + ["|", str(r[0])]
-        if mf != code:
-            res["model_mismatches"].append({"what": "front-end model and the real binary differ", "mode": mode, "program": t,
-                                            "code": code, "model": mf, "stderr": r[2][:200]})
-        if mode == "stdin" and any(":" in x for x in code):
-            res["nontrivial"].add("toy:" + t)
+
+    def shape(r):
+        out = r[1].split("\n")
+        if out and out[-1] == "":
+            out = out[:-1]
+        return out + ["|", str(r[0])]
+    repaired = reproduced = 0
+    for t, (rb, ra) in zip(texts, real):
+        for mode in ("file", "c", "source", "eval", "stdin"):
+            res["evaluations"] += 1
+            code, bash = shape(rb[mode]), shape(ra[mode])
+            m_code, m_spec = by[(t, mode, "brush")], by[(t, mode, "bash")]
+            if bash != m_spec:
+                # the specification (bash's rule for eval line numbers, EXIT path, exit) is wrong: machinery
+                raise core.CheckBroken("toy specification disagrees with bash in mode %s on %r: spec %r bash %r" % (mode, t, m_spec, bash))
+            if code == m_code:
+                if m_code != m_spec:
+                    reproduced += 1
+                    res["spec_violations"].append({"input": {"program": t, "mode": mode}, "known": KF_EVAL,
+                                                   "why": "$LINENO inside eval: %r, specified (and bash) %r" % (code, m_spec)})
+            elif code == m_spec:
+                repaired += 1      # inside the known class the code now equals the spec: repaired upstream
+            else:
+                res["model_mismatches"].append({"what": "front-end model and the real binary differ", "mode": mode, "program": t,
+                                                "code": code, "model": m_code, "spec": m_spec, "stderr": rb[mode][2][:200]})
+            if mode == "stdin" and any(":" in x for x in code):
+                res["nontrivial"].add("toy:" + t)
+    if repaired:
+        res["notes"].append("eval line numbers: the code equals the specification (not the model of the unchanged code) on %d toy runs: "
+                            "KF-C15-eval-lineno-base looks repaired upstream; update Modes.eval_builtin" % repaired)
+    res["dist_modes"]["toy_eval_finding_reproduced"] = reproduced
     res["dist_modes"]["toy_programs"] = len(texts)
 
 
